@@ -18,6 +18,7 @@ Behaviour (content, metadata, listings) is NOT modelled here: for C38 the model 
 -/
 import Pithos.Model.S3
 import Pithos.Gen.S3ClientMap
+import Pithos.Gen.S3ErrorTables
 
 namespace Pithos.S3Client
 open Pithos.S3
@@ -25,6 +26,7 @@ open Pithos.S3
 inductive Wire where
   | code (status : String) (c : String)   -- XML error body with <Code>c</Code>
   | bare (status : String)                -- status line and headers only
+  | marker (status : String)              -- bodyless, with `x-amz-delete-marker: true` (and version id) headers
   deriving DecidableEq, Repr
 
 def errVar : Err → String
@@ -41,6 +43,9 @@ def ofErrVar (s : String) : Err :=
   else if s == "ErrPreconditionFailed" then .preconditionFailed else if s == "ErrInvalidWriteOffset" then .invalidWriteOffset
   else if s == "ErrInvalidPart" then .invalidPart else if s == "ErrInvalidPartOrder" then .invalidPartOrder
   else if s == "ErrInvalidRange" then .invalidRange else if s == "ErrNotModified" then .notModified
+  -- the two delete-marker error types print as these kinds (errKind in s3hist.go)
+  else if s == "CurrentDeleteMarkerError" then .noSuchKey
+  else if s == "VersionDeleteMarkerMethodNotAllowedError" then .methodNotAllowed
   else .other
 
 /-- The kinds a storage call can answer with (everything `S3.Err` distinguishes except `other`). -/
@@ -48,16 +53,36 @@ def allKinds : List Err :=
   [.noSuchBucket, .noSuchKey, .bucketAlreadyExists, .bucketNotEmpty, .preconditionFailed, .methodNotAllowed,
    .invalidWriteOffset, .invalidPart, .invalidPartOrder, .invalidRange, .notModified]
 
+/-- The regenerated facts, as a value. -/
 structure Tables where
-  clauses : List (String × List (String × String))
-  serverStatus : List (String × String)
+  clauses : List (String × List (String × String))      -- method-specific clauses (run first)
+  serverEncode : List (String × String × String)         -- sentinel, status, code
+  decode : List (String × String)                        -- storageErrorsByS3Code
+  bareStatus : List (String × String)                    -- bodyless status → sentinel
+  deleteMarker : List (String × String)                  -- bodyless + delete-marker header: status → error type
+  translating : List String                              -- methods that end in translateS3Error
+  headDisambiguates : Bool                               -- HeadObject resolves a bare 404 by a HeadBucket
 
-def genTables : Tables := ⟨Gen.S3ClientMap.errorClauses, Gen.S3ClientMap.serverStatus⟩
+def genTables : Tables :=
+  { clauses := Gen.S3ClientMap.errorClauses, serverEncode := Gen.S3ErrorTables.serverEncode,
+    decode := Gen.S3ErrorTables.clientDecode, bareStatus := Gen.S3ErrorTables.clientBareStatus,
+    deleteMarker := if Gen.S3ErrorTables.clientDeleteMarkerGuarded then Gen.S3ErrorTables.clientDeleteMarker else [],
+    translating := Gen.S3ErrorTables.translatingMethods, headDisambiguates := Gen.S3ErrorTables.headObjectDisambiguates }
 
-def statusOf (t : Tables) (e : Err) : String :=
-  match t.serverStatus.find? (·.1 == errVar e) with
-  | some (_, s) => s
-  | none => "500"
+/-- The client before /repo commit 7a2631f: only the method-specific clauses, no general translation. -/
+def preFixTables : Tables :=
+  { genTables with
+    translating := []
+    headDisambiguates := false
+    clauses := genTables.clauses.map fun c =>
+      if c.1 == "HeadObject" then ("HeadObject", [("type:NotFound", "ErrNoSuchBucket")]) else c }
+
+def lookup (l : List (String × String)) (k : String) : Option String := (l.find? (·.1 == k)).map (·.2)
+
+def serverEntry (t : Tables) (e : Err) : String × String :=
+  match t.serverEncode.find? (·.1 == errVar e) with
+  | some (_, st, c) => (st, c)
+  | none => ("500", "InternalError")
 
 /-- Remove repeated elements (structural, so that `decide` can evaluate it). -/
 def dedup {α} [DecidableEq α] : List α → List α
@@ -65,22 +90,26 @@ def dedup {α} [DecidableEq α] : List α → List α
   | x :: xs => if x ∈ xs then dedup xs else x :: dedup xs
 
 /-- The forms in which the server may put an error of kind `e` on the wire. `NoSuchKey` is also what a
-current delete marker is reported as (bare 404); `MethodNotAllowed` only arises from addressing a
-delete marker by version id (bare 405). On a HEAD request there is never a body. -/
+current delete marker is reported as (bodyless 404 with the delete-marker header); `MethodNotAllowed`
+only arises from addressing a delete marker by version id (bodyless 405 with the header); a 304 never
+has a body. On a HEAD request there is never a body. -/
 def wires (t : Tables) (e : Err) (headReq : Bool) : List Wire :=
+  let (st, c) := serverEntry t e
   let coded : List Wire := match e with
-    | .methodNotAllowed => [.bare "405"]
-    | .noSuchKey => [.code (statusOf t e) e.toString, .bare "404"]
+    | .methodNotAllowed => [.marker "405"]
+    | .noSuchKey => [.code st c, .marker "404"]
+    | .notModified => [.bare st]
     | .other => [.code "500" "InternalError"]
-    | _ => [.code (statusOf t e) e.toString]
+    | _ => [.code st c]
   if headReq then dedup (coded.map fun w => match w with | .code s _ => Wire.bare s | w => w) else coded
 
 /-- Does an SDK error test of the client match this reply? `headOp`: the SDK operation is
-HeadObject/HeadBucket (only those deserialise a bare 404 into `types.NotFound`). -/
+HeadObject/HeadBucket (only those deserialise a bodyless 404 into `types.NotFound`). -/
 def sdkMatches (matcher : String) (headOp : Bool) (w : Wire) : Bool :=
   match w with
   | .code _ c => matcher == "code:" ++ c || matcher == "type:" ++ c
   | .bare s => s == "404" && ((matcher == "type:NotFound" && headOp) || matcher == "code:NotFound")
+  | .marker s => s == "404" && ((matcher == "type:NotFound" && headOp) || matcher == "code:NotFound")
 
 def clausesOf (t : Tables) (m : String) : List (String × String) :=
   let own := ((t.clauses.find? (·.1 == m)).map (·.2)).getD []
@@ -89,25 +118,59 @@ def clausesOf (t : Tables) (m : String) : List (String × String) :=
     | some h => h.2
     | none => [c]
 
-/-- The kind the caller of the client backend sees for reply `w` of SDK operation `m`. -/
-def clientKind (t : Tables) (m : String) (headOp : Bool) (w : Wire) : Err :=
+/-- `translateS3Error` on a reply. -/
+def translate (t : Tables) (w : Wire) : Option String :=
+  match w with
+  | .marker s => lookup t.deleteMarker s
+  | .code _ c => lookup t.decode c
+  | .bare s => lookup t.bareStatus s
+
+/-- The kind the caller of the client backend sees when the endpoint's storage answered `e` and the
+server put it on the wire as `w`, for SDK operation `m`. -/
+def clientKind (t : Tables) (m : String) (headOp : Bool) (e : Err) (w : Wire) : Err :=
   match (clausesOf t m).find? (fun c => sdkMatches c.1 headOp w) with
   | some c => ofErrVar c.2
-  | none => .other
+  | none =>
+    if t.translating.contains m then
+      match translate t w with
+      | some v => ofErrVar v
+      | none =>
+        -- HeadObject: a bare 404 is resolved by asking HeadBucket, i.e. correctly
+        if m == "HeadObject" && t.headDisambiguates && w == .bare "404" then e else .other
+    else .other
 
 /-- Every kind the client may report when the endpoint's storage answered `e` to method `m`. -/
 def roundTrip (t : Tables) (m : String) (headOp : Bool) (e : Err) : List Err :=
-  dedup ((wires t e headOp).map (clientKind t m headOp))
+  dedup ((wires t e headOp).map (clientKind t m headOp e))
 
 def preserved (t : Tables) (m : String) (headOp : Bool) (e : Err) : Bool :=
-  (wires t e headOp).all fun w => clientKind t m headOp w == e
+  (wires t e headOp).all fun w => clientKind t m headOp e w == e
+
+/-! ### The two tables against each other (sentinel level) -/
+
+/-- How the server writes a sentinel of its table (a 304 has no body). -/
+def encodeEntry (entry : String × String × String) : Wire :=
+  if entry.2.1 == "304" then .bare entry.2.1 else .code entry.2.1 entry.2.2
+
+/-- Every sentinel some part of the client decodes a reply to: the general translation and every
+method-specific code clause. -/
+def decodeAll (t : Tables) (methodClauses : List (String × String × String)) (w : Wire) : List String :=
+  (translate t w).toList ++
+  (match w with
+   | .code _ c => (methodClauses.filter (·.2.1 == c)).map (·.2.2)
+   | _ => [])
+
+def roundTrips (t : Tables) (methodClauses : List (String × String × String)) (entry : String × String × String) : Bool :=
+  let ds := decodeAll t methodClauses (encodeEntry entry)
+  !ds.isEmpty && ds.all (· == entry.1)
 
 /-- A complete translation: every S3 error code is mapped to the kind of the same name; a bare 404
 is read as a missing key, a bare 405 as a delete marker addressed by version. -/
 def idealClientKind (w : Wire) : Err :=
   match w with
   | .code _ c => (allKinds.find? (·.toString == c)).getD .other
-  | .bare s => if s == "404" then .noSuchKey else if s == "405" then .methodNotAllowed else .other
+  | .bare s => if s == "304" then .notModified else .other
+  | .marker s => if s == "404" then .noSuchKey else if s == "405" then .methodNotAllowed else .other
 
 /-- The storage methods behind each operation of the history language (`s3hist.go`), as
 (`s3ClientStorage` method, is a HEAD operation of the SDK). `get` first calls `HeadObject`. -/
